@@ -554,6 +554,19 @@ class CharsetInterp(object):
             if m == "join":
                 return union(recv, *argcs)
             if m in ("format", "format_map"):
+                # a constant template contributes its LITERAL text only: field names / conversions / specs inside the
+                # braces (`{candidate_type!r:>4}`) are not characters of the result
+                if m == "format" and isinstance(fn.value, ast.Constant) and isinstance(fn.value.value, str):
+                    import string as _string
+
+                    try:
+                        parts = list(_string.Formatter().parse(fn.value.value))
+                        lit = "".join(p_[0] for p_ in parts) + "".join((p_[2] or "") for p_ in parts)
+                        conv_r = any(p_[3] in ("r", "a") for p_ in parts)
+                        r2 = frozenset(lit) | (frozenset("'\"\\") if conv_r else frozenset())
+                        return union(r2, *allargs)
+                    except ValueError:
+                        pass
                 r2 = recv if recv == TOP else frozenset(recv - BRACES)
                 return union(r2, *allargs)
             if m == "replace" and len(argcs) >= 2:
